@@ -367,6 +367,7 @@ func checkC12(w *World, r *Report) {
 	checkQualifiedCallsKeepQualifier(w, r)
 	checkImportBindsVariable(w, r)
 	checkMacroRegistersItself(w, r)
+	checkNodesOwnTheirTables(w, r)
 	checkChainWalkBounds(w, r, "R12.8")
 }
 
@@ -1348,4 +1349,53 @@ func checkMacroRegistersItself(w *World, r *Report) {
 		})
 	}
 	r.floor("registrations in MacroNode.Render", n, 1)
+}
+
+// checkNodesOwnTheirTables — R12.14: what one tag declares belongs to the node of that tag.  No
+// map or slice handed to a node constructor in the parser is a container kept in a field of the
+// Parser: such a container is shared by every node built from it, so the aliases of one
+// `from … import a as x` tag apply to the same macro name in every other from tag of the template.
+func checkNodesOwnTheirTables(w *World, r *Report) {
+	reach := w.parseReachable()
+	n := 0
+	for _, fn := range w.pkgFuncs() {
+		if !reach[fn] {
+			continue
+		}
+		instrsOf(fn, func(in ssa.Instruction) {
+			c, ok := in.(*ssa.Call)
+			if !ok {
+				return
+			}
+			g := c.Call.StaticCallee()
+			if g == nil || !isTwigFn(g) || !(strings.HasPrefix(g.Name(), "New") || strings.HasPrefix(g.Name(), "Get")) || !strings.HasSuffix(g.Name(), "Node") {
+				return
+			}
+			for _, a := range c.Call.Args {
+				switch a.Type().Underlying().(type) {
+				case *types.Map, *types.Slice:
+				default:
+					continue
+				}
+				n++
+				from := ""
+				for _, o := range originChain(a) {
+					if u, ok := o.(*ssa.UnOp); ok && u.Op == token.MUL {
+						if fa, ok := u.X.(*ssa.FieldAddr); ok {
+							if t, f := fieldOfAddr(fa); t == "Parser" && f != "tokens" {
+								from = "Parser." + f
+							}
+						}
+					}
+				}
+				construct := "container handed to " + g.Name() + " belongs to the node"
+				if from == "" {
+					r.ok("R12.14", ssaName(fn), construct, w.posOf(in.Pos()), "not a container kept in the parser", false)
+				} else {
+					r.bad("R12.14", ssaName(fn), construct, w.posOf(in.Pos()), "the node is given "+from+", a container the parser keeps across tags: every node built from it sees what every other tag put there — an alias declared in one from tag renames the same macro in all the others")
+				}
+			}
+		})
+	}
+	r.floor("containers handed to node constructors in the parser", n, 5)
 }
